@@ -42,6 +42,11 @@ def run(ctx):
     for sfx, field, value, what in (("Graph::ensure_directed", "directed", False, "undirected graphs"), ("Graph::ensure_undirected", "directed", True, "directed graphs")):
         check_refusal(ctx, g, "R-C10-1", prog.one(sfx), field, value, what)
     ctx.floor("R-C10-1", "component_functions", n, 5)
+    # ... and the refusal carries ErrorKind::WrongMethod ("each function returns WrongMethod on the other kind of graph")
+    from guard import refusal_kinds
+
+    ctx.rule("R-C10-11", "the kind guards reachable from the component functions refuse with ErrorKind::WrongMethod")
+    refusal_kinds(ctx, g, "R-C10-11", prog, roots=[prog.one(sfx).path for sfx, _f, _v, _w in TABLE], floor=2)
     # ------------------------------------------------------------------ R-C10-2
     ctx.rule("R-C10-2", "component functions enumerate their start nodes from the node store (every node is a candidate), not from an adjacency map's keys")
     from hashord import natural_loop_blocks
